@@ -8,6 +8,8 @@
                callback); if that was the handler's last call, the answer is delivered (SetR) and the worker takes
                the next request from its queue;
      GStop     WorkerGrp.Stop: every queue is closed (workers keep draining what was accepted);
+     GAbandon w the caller of the job worker w is running gives up: its context is done and AsyncC.R returns the
+               context's error to it; nothing else changes, the handler runs to its end (and its result goes nowhere);
      GCaller i the goroutine of caller i itself makes an instrumented call other than the cache read of DoGet's
                fast path: never enabled - the label exists so that an observer can write down an implementation
                that does such a thing (it is then rejected by the replay, and the monitor still judges coherence).
@@ -29,7 +31,9 @@ Record wrk := mkWrk {
   k_queue : list job;                 (* accepted, not yet started: Q.reqList *)
   k_cur : option running;
   k_closed : bool;                    (* Q.closed *)
-  k_committed : fmap                  (* ghost: the store's value for each key after the last completed operation *)
+  k_committed : fmap;                 (* ghost: the store's value for each key after the last completed operation *)
+  k_gone : bool                       (* the caller of the running job has given up: its context is done, AsyncC.R has
+                                         returned the context's error; the handler runs on - it never looks at ctx *)
 }.
 
 Inductive answer :=
@@ -54,8 +58,8 @@ Definition enqueue (deep : nat) (s : wrk) (j : job) : wrk * answer :=
   if k_closed s then (s, ARefused EClosed)
   else if full deep (k_queue s) then (s, ARefused EFull)
   else match k_cur s with
-       | None => (mkWrk (k_st s) (k_queue s) (Some (start (k_st s) j)) (k_closed s) (k_committed s), AQueued)
-       | Some _ => (mkWrk (k_st s) (k_queue s ++ [j]) (k_cur s) (k_closed s) (k_committed s), AQueued)
+       | None => (mkWrk (k_st s) (k_queue s) (Some (start (k_st s) j)) (k_closed s) (k_committed s) false, AQueued)
+       | Some _ => (mkWrk (k_st s) (k_queue s ++ [j]) (k_cur s) (k_closed s) (k_committed s) (k_gone s), AQueued)
        end.
 
 Definition wcall (deep : nat) (s : wrk) (j : job) : wrk * answer :=
@@ -63,7 +67,7 @@ Definition wcall (deep : nat) (s : wrk) (j : job) : wrk * answer :=
   | OGet k =>
       let '(c', r) := c_get (wc (k_st s)) k in
       match r with
-      | Some v => (mkWrk (mkW c' (wsr (k_st s))) (k_queue s) (k_cur s) (k_closed s) (k_committed s), AFast v)
+      | Some v => (mkWrk (mkW c' (wsr (k_st s))) (k_queue s) (k_cur s) (k_closed s) (k_committed s) (k_gone s), AFast v)
       | None => enqueue deep s j
       end
   | _ => enqueue deep s j
@@ -83,23 +87,31 @@ Definition wstep (s : wrk) : option (wrk * answer) :=
           | Some x =>
               let k := key_of (j_op (r_job r)) in
               let '(cur', q') := next_job st' (k_queue s) in
-              Some (mkWrk st' q' cur' (k_closed s) (upd (k_committed s) k (smap (wsr st') k)), AStep id e (Some x))
+              Some (mkWrk st' q' cur' (k_closed s) (upd (k_committed s) k (smap (wsr st') k)) false,
+                    AStep id e (Some (if k_gone s then RErr ECtx else x)))   (* the result goes to a caller that is still there *)
           | None => Some (mkWrk st' (k_queue s) (Some (mkRun (r_job r) p' fs' (r_sv0 r) (if is_store_ev e then true else r_touched r) true))
-                        (k_closed s) (k_committed s), AStep id e None)
+                        (k_closed s) (k_committed s) (k_gone s), AStep id e None)
           end
       end
   end.
 
-Definition wstop (s : wrk) : wrk := mkWrk (k_st s) (k_queue s) (k_cur s) true (k_committed s).
+Definition wstop (s : wrk) : wrk := mkWrk (k_st s) (k_queue s) (k_cur s) true (k_committed s) (k_gone s).
+
+(* the caller of the running job leaves (its context is done while the request is being handled) *)
+Definition wabandon (s : wrk) : option wrk :=
+  match k_cur s with
+  | Some _ => if k_gone s then None else Some (mkWrk (k_st s) (k_queue s) (k_cur s) (k_closed s) (k_committed s) true)
+  | None => None
+  end.
 
 (* ------------------------------------------------------------------ the group *)
-Inductive glabel := GCall (j : job) | GStep (w : Z) | GStop | GCaller (id : Z).
+Inductive glabel := GCall (j : job) | GStep (w : Z) | GStop | GCaller (id : Z) | GAbandon (w : Z).
 
 Definition mach := Z -> wrk.
 Definition updm (g : mach) (w : Z) (s : wrk) : mach := fun x => if x =? w then s else g x.
 
 Definition minit (c : gcfg) : mach :=
-  fun _ => mkWrk (mkW (c_empty (g_cap c)) (init_store (g_init c))) [] None false (fun k => lookup k (g_init c)).
+  fun _ => mkWrk (mkW (c_empty (g_cap c)) (init_store (g_init c))) [] None false (fun k => lookup k (g_init c)) false.
 
 Definition gstep (c : gcfg) (deep : nat) (g : mach) (l : glabel) : option (mach * answer) :=
   match l with
@@ -111,6 +123,9 @@ Definition gstep (c : gcfg) (deep : nat) (g : mach) (l : glabel) : option (mach 
       if (w <? 0) || (g_n c <=? w) then None
       else match wstep (g w) with Some (s', a) => Some (updm g w s', a) | None => None end
   | GStop => Some (fun w => wstop (g w), AStopped)
+  | GAbandon w =>
+      if (w <? 0) || (g_n c <=? w) then None
+      else match wabandon (g w) with Some s' => Some (updm g w s', ARefused ECtx) | None => None end
   | GCaller _ => None        (* in this machine a caller's goroutine never makes a cache write or a store callback *)
   end.
 
